@@ -8,6 +8,8 @@ PROP = {
     "targets": [
         {"name": "svec_int", "quick": 400000, "thorough": 12000000, "maxlen": 256},
         {"name": "svec_tracked", "quick": 300000, "thorough": 10000000, "maxlen": 256},
+        {"name": "svec_small", "quick": 200000, "thorough": 4000000, "maxlen": 256},
+        {"name": "portable_svec_small", "quick": 200000, "thorough": 4000000, "maxlen": 256},
         {"name": "sstring", "quick": 400000, "thorough": 12000000, "maxlen": 200},
         {"name": "portable_svec_int", "quick": 400000, "thorough": 12000000, "maxlen": 256},
         {"name": "portable_svec_tracked", "quick": 300000, "thorough": 10000000, "maxlen": 256},
